@@ -341,6 +341,35 @@ static Reg r_loadtrunc("nn_loadtrunc", [](const Args& a) {
                      std::to_string(np) + " (stack painted with " + std::to_string(paint) + "): the stream state is never tested in binary mode and the header fields that could not be read are uninitialised");
 });
 
+
+// nn_init kind seed n bucket | T <text tokens of Save> (P <n+1> 0 0 x0 y0 … | M <n> d(0,0) d(0,1) … d(n-1,n-1))
+// the tree built by Initialize, for the Lean model of `init` (nth_element = full sort): the pair order (distance, index) is total, so the sets on
+// either side of the median — and with them the whole tree — do not depend on the nth_element implementation; a tree that differs from the model's
+// but satisfies TreeInv is accepted (the property does not fix the construction)
+static Reg r_init("nn_init", [](const Args& a) {
+  int kind = std::stoi(a[0]); uint64_t seed = std::stoull(a[1]); int n = std::stoi(a[2]), bucket = std::stoi(a[3]);
+  std::vector<Pt> pts = make_points(kind, seed, n); DistFn df{kind};
+  NN nn; nn.Initialize(pts, df, bucket);
+  std::ostringstream os; nn.Save(os, false);
+  std::string out = "T"; for (auto& t : split_ws(os.str())) out += " " + t;
+  if (kind <= 3) { out += " P " + std::to_string(n + 1) + " 0 0"; for (auto& p : pts) out += " " + std::to_string(p.x) + " " + std::to_string(p.y); }
+  else { out += " M " + std::to_string(n); for (int i = 0; i < n; ++i) for (int j = 0; j < n; ++j) out += " " + std::to_string(df(pts[i], pts[j])); }
+  emit(out);
+  // harness-side oracle, independent of the Lean model: every index is stored exactly once and the node count is what the recursion gives
+  std::vector<std::string> t = split_ws(os.str()); std::vector<int> seen(n, 0); bool okc = true;
+  if (t.size() >= 6) {
+    size_t p = 6; int ts = std::stoi(t[4]);
+    for (int i = 0; i < ts && okc; ++i) {
+      if (p >= t.size()) { okc = false; break; }
+      long long idx = std::stoll(t[p++]);
+      if (idx >= 0) { if (idx < n) ++seen[idx]; else okc = false; p += 6; }
+      else for (int l = 0; l < bucket; ++l, ++p) { if (p >= t.size()) { okc = false; break; } long long v = std::stoll(t[p]); if (v >= 0) { if (v < n) ++seen[v]; else okc = false; } }
+    }
+    for (int i = 0; i < n; ++i) if (seen[i] != 1) okc = false;
+  } else okc = false;
+  if (!okc) bad("init-each-point-once", "the tree built by Initialize does not store every point index exactly once");
+});
+
 inline std::string S(long long v) { return std::to_string(v); }
 
 inline void generate(Rng& r, bool thorough) {
@@ -360,6 +389,11 @@ inline void generate(Rng& r, bool thorough) {
     stratum(std::string("nn:search:") + (kind == 0 ? "L1-tie-rich" : kind == 1 ? "L1" : kind == 2 ? "collinear" : kind == 3 ? "chebyshev" : "geodesic-mm") +
             (mindist > 0 ? ":mindist>0" : "") + (maxdist != DMAX ? ":maxdist" : "") + (via ? ":via-save-load" : "") + (!exh ? ":non-exhaustive" : "") + (tol ? ":tol" : "") + (bucket == 0 ? ":bucket0" : ""));
     run("nn_search", {S(kind), S(r.next() % 1000000), S(n), S(bucket), S(via), S(k), S(maxdist), S(mindist), S(exh), S(tol), S(r.next() % 1000000)});
+  }
+  for (int i = 0; i < (thorough ? 6000 : 1200); ++i) {
+    int kind = r.irange(0, 9) < 8 ? r.irange(0, 3) : 4; int n = i < 8 ? i : size(); if (kind == 4) n = std::min(n, 40); else n = std::min(n, 400);
+    stratum(std::string("nn:init-vs-model:") + (kind == 0 ? "L1-tie-rich" : kind == 1 ? "L1" : kind == 2 ? "collinear" : kind == 3 ? "chebyshev" : "geodesic-mm"));
+    run("nn_init", {S(kind), S(r.next() % 1000000), S(n), S(i < 24 ? i % 3 : r.irange(0, 10))});
   }
   int NB = thorough ? 600 : 60;
   for (int i = 0; i < NB; ++i) {
